@@ -180,6 +180,14 @@ def dedupLine (dir : String) (toks : List String) : String :=
 def handle (line : String) : String :=
   match words line with
   | "DD" :: dir :: rest => dedupLine dir rest
+  | ["LE", g, n, i] =>
+    match bytesOfHex g, bytesOfHex n, bytesOfHex i with
+    | some g, some n, some i =>
+      let e := buildLeaf g n i
+      match parseLeaf e with
+      | some (a, b, c) => s!"{hexOrDash e} {hexOrDash a} {hexOrDash b} {hexOrDash c}"
+      | none => s!"{hexOrDash e} ERR"
+    | _, _, _ => "bad-op"
   | h :: n :: rest =>
     if h.startsWith "H" then
       match n.toNat? with
